@@ -68,7 +68,8 @@ def gen_case(rng, tier, i):
         times = [rng.choice([1, 1.0, 2, 2.5, 3, 3.0, 0]) for _ in range(ntimes)]
     else:
         times = [rng.choice([[1, "min"], [60, "s"], [0.5, "h"], [30, "min"], [1800, "s"], [2, "s"], [2000, "ms"],
-                             [0, "s"], [1, "day"]]) for _ in range(ntimes)]
+                             [0, "s"], [1, "day"], [0.1 + 0.2, "s"], [0.3, "s"], [300, "ms"], [0.005, "min"],
+                             [1800.0000000000002, "s"]]) for _ in range(ntimes)]      # incl. times one ulp apart
     events = [[rng.choice(times), rng.choice([1, 5, 5, 10, 5])] for _ in range(nev)]
     nops = rng.randint(5, 60)
     ops = []
